@@ -201,6 +201,15 @@ func c09SpecialSeq(g *gen.G, which int) *c09Seq {
 		c3 := mk("expr", "c09-guarded-by-swapped-in-import", y, imp(' ', "example.com/new/swaplog"), "swapMark(«y»)", "swapNew(«y»)")
 		return &c09Seq{changes: []*gen.Change{c1, c2, c3}, roles: []string{"swaps-import", "guarded-by-removed-import", "guarded-by-swapped-in-import"}, base: c1,
 			extra: []string{"swapMark(%s)"}, imports: "import (\n\t\"example.com/old/swaplog\"\n\t\"os\"\n)\n\nvar _ = os.Args\n"}
+	case 12:
+		// an earlier change writes the file's first references to a package and adds its import; a later change removes
+		// that import and rewrites only some of the references: whether the import may go is decided on the file as it
+		// is then, not on what the parser saw when the file was read
+		c1 := mk("expr", "c09-introduces-package", x, []gen.Line{gen.L('-', `import "example.com/legacy/strutil"`), gen.L('+', `import "strings"`), gen.L(' ', "")}, "strutil.Upper(«x»)", "strings.ToUpper(«x»)")
+		c2 := mk("expr", "c09-removes-import-still-in-use", y, []gen.Line{gen.L('-', `import "strings"`), gen.L('+', `import "bytes"`), gen.L(' ', "")}, "strings.ToUpper(string(«y»))", "string(bytes.ToUpper(«y»))")
+		return &c09Seq{changes: []*gen.Change{c1, c2}, roles: []string{"introduces-package", "removes-import-still-in-use"}, base: c1,
+			extra:   []string{"strutil.Upper(string(%s))", "strutil.Upper(%s)"},
+			imports: "import (\n\t\"example.com/legacy/strutil\"\n\t\"os\"\n)\n\nvar _ = os.Args\n"}
 	case 11:
 		// a later change of the same patch file uses, as an ordinary name, a name that an earlier change declares as a
 		// metavariable: on its own it rewrites the code that has that very name and nothing else, and so it does in
@@ -483,6 +492,8 @@ func runC09(ctx *core.Ctx, idx int) *core.Result {
 		seq = c09SpecialSeq(g, 10)
 	case 22:
 		seq = c09SpecialSeq(g, 11)
+	case 19:
+		seq = c09SpecialSeq(g, 12)
 	}
 	// files
 	nf := 3
